@@ -44,11 +44,13 @@ def mkRed (f : String) (cs : List Cell) : Cell :=
   | [c] => c
   | _ => .app ("red:" ++ f) (sortCells cs)
 
-/-- Canonical product cell (factors in operand order). -/
+/-- Canonical product cell: the left fold of the binary `multiply` over the factors in operand order (the same cell as the
+n-ary elementwise `multiply` denotes, so a product computed by one `einsum` call and one computed by a chain of
+`np.multiply` calls are the same symbolic value).  The empty product keeps the n-ary form (never produced by a plan). -/
 def mkProd (cs : List Cell) : Cell :=
   match cs with
-  | [c] => c
-  | _ => .app "multiply" cs
+  | [] => .app "multiply" []
+  | c :: rest => rest.foldl (fun acc d => .app "multiply" [acc, d]) c
 
 inductive InstrX where
   | base (i : Instr)
